@@ -1,6 +1,7 @@
 package main
 
 import (
+	"sort"
 	"fmt"
 	"go/constant"
 	"go/types"
@@ -636,34 +637,12 @@ func (e *Env) evalCall(x *Expr) SVal {
 		a := e.eval(x.Args[0])
 		b := e.eval(x.Args[1])
 		return SVal{S: app("err.is", a.S, b.S), Sort: "Bool"}
-	case "visited": // visited(k): k has been produced by the (single) map range loop of this function
+	case "visited": // visited(k [, n]): k has been produced by the (n-th, in source order) map range loop of this function
 		k := e.eval(x.Args[0])
-		var comp string
-		for c := range t.compSort {
-			if strings.HasPrefix(c, "R.") && strings.HasSuffix(c, ".visited") {
-				if comp != "" {
-					e.errf(x, "visited(): more than one map range in this function")
-				}
-				comp = c
-			}
-		}
-		if comp == "" {
-			e.errf(x, "visited(): no map range in this function")
-		}
+		comp := e.rangeGhost(x, ".visited", 1)
 		return SVal{S: e.inState(func() string { return app("select", t.get(comp), k.S) }), Sort: "Bool"}
-	case "visitedcount": // visitedcount(): number of keys produced so far by the (single) map range loop of this function
-		var comp string
-		for c := range t.compSort {
-			if strings.HasPrefix(c, "R.") && strings.HasSuffix(c, ".count") {
-				if comp != "" {
-					e.errf(x, "visitedcount(): more than one map range in this function")
-				}
-				comp = c
-			}
-		}
-		if comp == "" {
-			e.errf(x, "visitedcount(): no map range in this function")
-		}
+	case "visitedcount": // visitedcount([n]): number of keys produced so far by the (n-th) map range loop of this function
+		comp := e.rangeGhost(x, ".count", 0)
 		return SVal{S: e.inState(func() string { return t.get(comp) }), Sort: "Int"}
 	case "aload": // aload(p): current value of the sync/atomic object p points to (sequential reading)
 		v := e.eval(x.Args[0])
@@ -1023,4 +1002,36 @@ func derefNamed(T types.Type) (*types.Named, bool) {
 	}
 	n, ok := T.(*types.Named)
 	return n, ok
+}
+
+// rangeGhost: the ghost component (suffix ".visited" / ".count") of the function's map range loop; with several map ranges
+// the argument at position argPos selects the n-th one in source order (SSA register order).
+func (e *Env) rangeGhost(x *Expr, suffix string, argPos int) string {
+	t := e.t
+	var comps []string
+	for c := range t.compSort {
+		if strings.HasPrefix(c, "R.") && strings.HasSuffix(c, suffix) {
+			comps = append(comps, c)
+		}
+	}
+	regNo := func(c string) int {
+		n := 0
+		fmt.Sscanf(strings.TrimPrefix(c, "R.t"), "%d", &n)
+		return n
+	}
+	sort.Slice(comps, func(i, j int) bool { return regNo(comps[i]) < regNo(comps[j]) })
+	if len(comps) == 0 {
+		e.errf(x, "%s(): no map range in this function", x.Name)
+	}
+	if len(x.Args) > argPos {
+		n := 0
+		if x.Args[argPos].Op != "int" || func() bool { _, err := fmt.Sscanf(x.Args[argPos].Name, "%d", &n); return err != nil }() || n < 1 || n > len(comps) {
+			e.errf(x, "%s(): the map range ordinal must be a literal between 1 and %d", x.Name, len(comps))
+		}
+		return comps[n-1]
+	}
+	if len(comps) > 1 {
+		e.errf(x, "%s(): more than one map range in this function (give the ordinal)", x.Name)
+	}
+	return comps[0]
 }
